@@ -228,9 +228,22 @@ func (e *Engine) initExt() {
 	pure([]string{"reflect.DeepEqual", "github.com/google/go-cmp/cmp.Equal"}, "read-only comparison; result unconstrained")
 
 	// ---- time / timestamps ----
-	pure([]string{"time.Now", "(time.Time).UTC", "(time.Time).Format", "(time.Time).Unix", "(*time.Time).Unix", "time.Parse",
-		"(*google.golang.org/protobuf/types/known/timestamppb.Timestamp).AsTime", "(*google.golang.org/protobuf/types/known/timestamppb.Timestamp).String"},
+	pure([]string{"time.Now", "time.Parse",
+		"(*google.golang.org/protobuf/types/known/timestamppb.Timestamp).String"},
 		"pure; result unconstrained (nil-safe receiver where a method)")
+	uf([]string{"(time.Time).UTC", "(time.Time).Format", "(time.Time).Unix", "(time.Time).Sub", "(time.Time).Equal", "(time.Time).Truncate", "(time.Time).UnixNano",
+		"(time.Time).Before", "(time.Time).After", "(time.Time).IsZero", "(time.Time).Round", "(time.Duration).Truncate", "(time.Duration).Seconds", "(time.Duration).Abs", "(time.Duration).Round"},
+		"pure function of its arguments (uninterpreted)")
+	e.reg("(*google.golang.org/protobuf/types/known/timestamppb.Timestamp).AsTime", "Timestamp.AsTime: a pure function of the message's seconds and nanos (nil receiver reads as 0,0)", func(f *Frame, st *State, c *ssa.CallCommon, args []Val, rt types.Type, pos token.Pos) Val {
+		vc := f.vc
+		p := args[0]
+		loc := f.ptrLoc(p)
+		secs := vc.load(st, &Loc{Kind: LObj, Base: loc.Base, Root: loc.Root, Path: ".Seconds", T: types.Typ[types.Int64]})
+		nanos := vc.load(st, &Loc{Kind: LObj, Base: loc.Base, Root: loc.Root, Path: ".Nanos", T: types.Typ[types.Int32]})
+		isNil := Eq(p.one(), Zero)
+		a := []Val{scalar(types.Typ[types.Int64], Ite(isNil, Zero, secs.one())), scalar(types.Typ[types.Int32], Ite(isNil, Zero, nanos.one()))}
+		return ufResult(f, "timestamppb.AsTime", a, rt)
+	})
 	e.reg("google.golang.org/protobuf/types/known/timestamppb.New", "timestamppb.New: returns a fresh non-nil Timestamp", func(f *Frame, st *State, c *ssa.CallCommon, args []Val, rt types.Type, pos token.Pos) Val {
 		r := f.vc.alloc(st, "ts", kindOfPtr(rt))
 		return scalar(rt, r)
